@@ -246,7 +246,7 @@ func (e *c07env) checkAccepted(kind, desc string, tr string, pkt []byte, admin b
 	}
 	served := false
 	for _, m := range e.book {
-		if strings.ToLower(m) == method {
+		if strings.ToLower(m) == strings.ToLower(method) { // names are matched without regard to case (parseProxyBook lower-cases the book)
 			served = true
 		}
 	}
@@ -422,7 +422,7 @@ func c07(c *ctx) {
 	admin := append([]byte("ADMIN-UID-"), r.bytes(6)...)
 	byp := r.bytes(16)
 	dbu := r.bytes(16)
-	book := []string{"shadowsocks", "openvpn", "twelve-bytes"}
+	book := []string{"shadowsocks", "openvpn", "twelve-bytes", "MixedCaseSS"} // as the operator wrote them; the server keeps them lower-cased
 	T := e.cur
 
 	type flavour struct {
@@ -608,7 +608,11 @@ func c07(c *ctx) {
 		e.conn(mk(dbu, 17, "openvpn", 1), "active user, authorisation restored, new session")
 		// methods
 		e.conn(mk(byp, 5, "unknown", 1), "unknown proxy method")
-		e.conn(mk(byp, 5, "Shadowsocks", 1), "method in the wrong case")
+		e.conn(mk(byp, 5, "Shadowsocks", 1), "method in another case than its ProxyBook entry")
+		e.conn(mk(byp, 5, "MixedCaseSS", 1), "method written exactly like its mixed-case ProxyBook entry")
+		e.conn(mk(byp, 5, "mixedcasess", 1), "lower-case form of a mixed-case ProxyBook entry")
+		e.conn(mk(byp, 5, "MIXEDCASESS", 1), "upper-case form of a mixed-case ProxyBook entry")
+		e.conn(mk(byp, 5, "MixedCaseS", 1), "prefix of a ProxyBook entry")
 		e.conn(mk(byp, 5, "twelve-bytes", 2), "12-byte method name")
 		e.conn(mk(byp, 5, "", 1), "empty method")
 		// encryption methods
